@@ -1,4 +1,6 @@
 import Dagrt.Proofs.Unify
+import Dagrt.Proofs.KindOrderProofs
+import Dagrt.Model.Builtins
 /-!
 # C14 — kind unification is a partial join; kind inference is order-independent
 
@@ -46,5 +48,102 @@ example : unify (some .integer) (some (.user "y")) = .ok (some (.user "y")) ∧
           unify (some (.user "y")) (some .integer) = .ok (some (.user "y")) := by decide
 example : (unify (some (.array true)) (some (.scalar false))).bind (fun ab => unify ab (some .integer))
           = .ok (some (.array false)) := by decide
+
+/-! ### kind inference does not depend on the order of the statements
+
+The work-list loop (`inferAll`) returns the LEAST strict post-fix-point of the statements' rules
+above the initial table: it is a post-fix-point (`KindLoopProofs.inferAll_postfix`), and every table
+it goes through stays below any strict post-fix-point (`KindOrderProofs.inferAll_least`, from the
+monotonicity of the rules in the table, `infer_mono`).  Two runs over the same statements - in any
+order, with any repetitions, phases interleaved in any way - therefore return tables with exactly
+the same entries.
+
+Hypotheses, all necessary: no unification failure was printed-and-ignored in either run (`NoIgnored`;
+its failure is the recorded known finding `C14-incompatible-kinds-first-wins`, where the result DOES
+depend on the order); the registered functions are monotone in the loop's mode (`RegMono`: true of
+functions with fixed result kinds, `regMono_fixed`; for the built-ins it can fail on arguments of a
+kind the final consistency pass rejects anyway, e.g. `matmul` of a user type). -/
+
+/-- no unification failure was swallowed for this statement -/
+def NoIgnored (reg : Registry) (t : Table) (ph : Name) : KStmt → Prop
+  | .assign lhs _ _ flat loops =>
+    (∀ i ∈ loops, ∀ old e, t.get ph i = some old → unifyK .integer old ≠ .error e) ∧
+    (∀ k old e, infer false reg t ph flat = .ok k → t.get ph lhs = some old → unifyK k old ≠ .error e)
+  | .callAssign lhs f args kw =>
+    ∀ ks, inferCall false reg t ph f args kw = .ok ks →
+      ∀ p ∈ zipNK lhs ks, ∀ old e, t.get ph p.1 = some old → unifyK p.2 old ≠ .error e
+  | .other => True
+
+theorem above_of_absorbed {t : Table} {ph n : Name} {k : Kind} (h : Absorbed t ph n k)
+    (hn : ∀ old e, t.get ph n = some old → unifyK k old ≠ .error e) : Above t ph n k := by
+  obtain ⟨old, hold, h1 | h2 | ⟨e, he⟩⟩ := h
+  · exact ⟨old, hold, le_of_absorbed (Or.inl h1)⟩
+  · exact ⟨old, hold, le_of_absorbed (Or.inr h2)⟩
+  · exact absurd he (hn old e hold)
+
+theorem strict_of_fix {reg : Registry} {t : Table} {ph : Name} {s : KStmt}
+    (h : StmtFix reg t ph s) (hn : NoIgnored reg t ph s) : StmtFixS reg t ph s := by
+  cases s with
+  | assign lhs hasSub rhs flat loops =>
+    obtain ⟨hl, ha⟩ := h
+    obtain ⟨nl, na⟩ := hn
+    refine ⟨fun i hi => above_of_absorbed (hl i hi) (fun old e => nl i hi old e), fun hs => ?_⟩
+    obtain ⟨k, hk, hab⟩ := ha hs
+    exact ⟨k, hk, above_of_absorbed hab (fun old e => na k old e hk)⟩
+  | callAssign lhs f args kw =>
+    obtain ⟨ks, hks, hab⟩ := h
+    exact ⟨ks, hks, fun p hp => above_of_absorbed (hab p hp) (fun old e => hn ks hks p hp old e)⟩
+  | other => trivial
+
+/-- functions with fixed result kinds (`FixedResultKindsFunction`, what user right-hand sides are
+    registered as) are monotone -/
+theorem regMono_fixed (fixed : List (Name × List Kind)) :
+    RegMono (fun f => (fixed.lookup f).map (fun ks _ _ _ => .ok ks)) := by
+  intro f fn hf ak ak' kk kk' ks _ _ hfn
+  cases hl : fixed.lookup f with
+  | none => simp [hl] at hf
+  | some ks0 =>
+    simp only [hl, Option.map_some, Option.some.injEq] at hf
+    subst hf
+    simp only [Except.ok.injEq] at hfn
+    subst hfn
+    refine ⟨ks0, rfl, ?_⟩
+    clear hl
+    induction ks0 with
+    | nil => exact KsLe.nil
+    | cons k ks ih => exact KsLe.cons (le_refl _) ih
+
+/-- **Kind inference is order-independent** (all programs, all registries of monotone functions):
+    two presentations of the same statements - any order, any repetitions - on which inference
+    succeeds without a swallowed unification failure give tables with exactly the same entries. -/
+theorem inference_order_independent (reg : Registry) (hreg : RegMono reg)
+    (prog prog' : List (Name × KStmt)) (hsame : ∀ p, p ∈ prog ↔ p ∈ prog')
+    (hph : ∀ p ∈ prog, p.1 ≠ "")
+    (t t' : Table) (h : inferAll reg prog = .ok t) (h' : inferAll reg prog' = .ok t')
+    (hn : ∀ p ∈ prog, NoIgnored reg t p.1 p.2) (hn' : ∀ p ∈ prog', NoIgnored reg t' p.1 p.2) :
+    ∀ key, lookupE t.entries key = lookupE t'.entries key := by
+  have hph' : ∀ p ∈ prog', p.1 ≠ "" := fun p hp => hph p ((hsame p).mpr hp)
+  have hw := inferAll_wellScoped reg prog hph t h
+  have hw' := inferAll_wellScoped reg prog' hph' t' h'
+  -- each result is a strict post-fix-point of the statements - of both presentations
+  have fix : ∀ p ∈ prog, StmtFixS reg t p.1 p.2 :=
+    fun p hp => strict_of_fix (inferAll_postfix reg prog t h p hp) (hn p hp)
+  have fix' : ∀ p ∈ prog', StmtFixS reg t' p.1 p.2 :=
+    fun p hp => strict_of_fix (inferAll_postfix reg prog' t' h' p hp) (hn' p hp)
+  have work : WorkOK reg t' prog := fun p hp => ⟨hph p hp, fix' p ((hsame p).mp hp)⟩
+  have work' : WorkOK reg t prog' := fun p hp => ⟨hph' p hp, fix p ((hsame p).mpr hp)⟩
+  -- both are above the initial table
+  have init_t : TLe Table.init t := outer_above_init reg prog t h
+  have init_t' : TLe Table.init t' := outer_above_init reg prog' t' h'
+  exact tle_antisymm (inferAll_least reg hreg prog t h t' hw' work init_t').1
+    (inferAll_least reg hreg prog' t' h' t hw work' init_t).1
+
+/-- an instance: the two orders of a program in which one statement has to wait for the other -/
+example :
+    let s1 : Name × KStmt := ("p", .assign "y" false (.prod [.var "x", .const (.cplx "1j")]) (.prod [.var "x", .const (.cplx "1j")]) [])
+    let s2 : Name × KStmt := ("p", .assign "x" false (.var "<t>") (.var "<t>") [])
+    let r := fun prog => (inferAll (mkRegistry []) prog).toOption.map
+      (fun t => (t.get "p" "x", t.get "p" "y", t.get "p" "<t>", t.get "p" "<dt>"))
+    r [s1, s2] = r [s2, s1] ∧ (r [s1, s2]).isSome = true := by decide +kernel
 
 end Dagrt.C14
